@@ -8,6 +8,10 @@ claims = {
          "No-panic obligations (nil dereference, index, slice bounds, explicit panic unreachable, type assertion, nil map) and loop/recursion variants for every function under contract, generated from go/ssa and discharged by SMT for all inputs; scanner stack discipline (Pop never on empty) is an inductive invariant over all 160 state functions.",
          "Functions outside the contract set and the schema library are not covered; termination only where a decreases clause exists; see evidence.assumptions and unverified_functions.",
          "contract-based deductive verification: safety VCs from go/ssa discharged by z3/cvc5", "DESIGN.md 4.C01"),
+ "C03": ("proof",
+         "Partial claim, single-run reformulation (DESIGN 4.C03): (a) frame scan over the SSA of the whole repository: the only ranges over maps are in four named functions, each of which only collects the keys into a slice that is sorted before use (shape checked on the SSA); no goroutine, select, time, math/rand or pointer-to-integer conversion in repository code; (b) package-level state is written only by initialisers and the declared sync.Once closure.",
+         "Determinism of the schema library, of encoding/json and regexp is assumed; equality across processes and under concurrent parses is not claimed (see C16).",
+         "contract-style frame scans over go/ssa (complete reader/writer/range lists declared in the contract files and checked on every run)", "DESIGN.md 4.C03"),
  "C06": ("proof",
          "processContext is proved against the property statement itself: on success the directive hangs under anc(k) for the least k whose kind admits it, with no explicit context crossed (or at top level when the chain is exhausted and the kind may stand there; or hoisted for a path-bearing HTTP method under a non-parenthesised URL); on error no such place exists; closeLastExplicitContext / HasUnclosedExplicitContext / processEOF / processContextEnd / processCurrentDirective / next are proved against the ancestor-chain specification; termination of the walks by a ghost depth (TreeWF).",
          "allowedCtx is the repository's parent/child table read as an uninterpreted relation (IsAllowedForDirectiveContext trusted to be a pure function of its arguments); ghost depth updates are ghost code at function exit; paste re-resolution (processDirective) not yet under contract.",
@@ -28,6 +32,10 @@ claims = {
          "BOUNDED stand-in (not a proof): the real core.description and catalog.Annotation are executed on every text over a 7-symbol alphabet up to length 6 (thorough: 8): idempotence, shape of the result, bare == parenthesised, Annotation normal form.",
          "Bounded by alphabet and length; one known finding class (idempotence when the result is itself parenthesised).",
          "bounded exhaustive execution of the real functions against an executable contract", "DESIGN.md 4.C15"),
+ "C16": ("proof",
+         "Partial claim: lock-permission discipline of every generated ordered map, StringSet and RulesBuilder (every access to data/order requires the mutex held, write-held for stores; every method releases it: removing or weakening one Lock/Unlock fails a named obligation), sequential view contracts (whole-view postconditions of Set/SetToTop/Has/Get/GetValue/Len), and a frame scan: package-level variables are written only by initialisers and the declared sync.Once body.",
+         "Assumed: sync.RWMutex gives mutual exclusion; *regexp.Regexp is safe for concurrent use. Not claimed: data-race freedom of whole parses and equality of concurrent vs solo results (schedules); callback-taking methods (Each, Map, Update, Find) are not verified (unknown callback frames).",
+         "contract-based deductive verification (mutex as permission ghost state) + SSA frame scan of global stores", "DESIGN.md 4.C16"),
  "C17": ("proof",
          "Proof: safety and frame of directive.unescapeParameter (single pass), quoted-parameter scanner states under the step-function contract. BOUNDED stand-in: unescape(quote(x)) == x and unescape(x) == x for quote-free x, for every x over {\\, \", a, space, #, /, tab} up to length 5 (thorough: 6) on the real function.",
          "Round trip is bounded (labelled so in evidence.coverage.bounded); the scanner/normaliser agreement end-to-end is not claimed.",
